@@ -149,7 +149,7 @@ def run(ctx):
         'samples': [{'steps': mem_scripts[0]['steps'][:8]}, {'settled': {k: settled[0][k] for k in ('gotA', 'gotB', 'subA', 'subB')}}], 'exhaustive': False,
     })
     ctx.assumptions += ['sequence resets disabled; FIX.4.2; forced schedules run on the synchronous two-engine driver (no real sockets, no wall-clock timers); '
-                        'the real Acceptor/Initiator over loopback TCP run timed (not forced) schedules with HeartBtInt 1 s, and "the link stays up" means up to 25 s',
+                        'the real Acceptor/Initiator over loopback TCP run timed (not forced) schedules with HeartBtInt 1 s, and "the link stays up" means up to 90 s',
                         'a cut loses everything still in flight (any suffix, since deliveries may precede it); restarts only with the file store']
 
 
@@ -185,7 +185,7 @@ def live(ctx, quick):
         raise common.Infra('no live run completed')
     void = [r_ for r_ in rows if not r_['converged'] and not (r_['onA'] and r_['onI'])]
     if void:
-        ctx.notes.append('%d live run(s) ended with a side not logged on after 25 s of link up: not judged for completion' % len(void))
+        ctx.notes.append('%d live run(s) ended with a side not logged on after 90 s of link up: not judged for completion' % len(void))
         if len(void) * 2 > len(rows):
             raise common.Infra('more than half of the live runs ended without both sides logged on')
     content = '\n'.join(json.dumps(r_, separators=(',', ':')) for r_ in rows) + '\n'
